@@ -31,7 +31,17 @@ type interner struct {
 	tab []string
 }
 
+// normalizeFirstFound: open finding C10/FirstFoundUnresolved - with two or more unresolvable references the message
+// "some references could not be resolved in spec. First found: ..." names whichever the expander met first (map order);
+// while the finding's witness still flips, such messages are compared up to the reference they name.
+var normalizeFirstFound bool
+
+const firstFoundPrefix = "some references could not be resolved in spec. First found:"
+
 func (in *interner) id(s string) int {
+	if normalizeFirstFound && strings.HasPrefix(s, firstFoundPrefix) {
+		s = firstFoundPrefix + " <one of the unresolvable references>"
+	}
 	in.mu.Lock()
 	defer in.mu.Unlock()
 	if in.ids == nil {
@@ -317,16 +327,19 @@ func driveSpec(args []string) error {
 	extra := fs.String("docs", "", "file with further documents, one JSON per line (validated unedited)")
 	out := fs.String("out", "", "output directory")
 	shard := fs.String("shard", "0/1", "k/n: handle documents with index mod n = k")
+	nff := fs.Bool("normalize-first-found", false, "compare 'First found' messages up to the reference they name (open finding C10/FirstFoundUnresolved, while live)")
 	crashed := fs.String("crashed", "", "comma separated <doc index>:<mode>:<how> of validations that killed (or hung) an earlier attempt of this run: they are reported, not run again")
 	fs.Parse(args)
 	// A validation that never returns or that ends the process with a fatal error (stack overflow) cannot be recovered from in
 	// process. Protocol: the document and mode being validated are noted in current.txt first; a hang ends the process at once
 	// (exit 5) and a fatal error ends it anyway; the caller starts the run again with that validation listed in -crashed.
+	normalizeFirstFound = *nff
 	debug.SetMaxStack(192 << 20)
 	// one P and no automatic collection: what a validation leaves in the sync.Pools (for instance after a panic that the
 	// library recovered itself) is what the next validation of the run borrows; memory is reclaimed every few documents
 	runtime.GOMAXPROCS(1)
 	debug.SetGCPercent(-1)
+	debug.SetMemoryLimit(1500 << 20) // ... and whenever the heap approaches 1.5 GB (repeated validations of large documents)
 	crashedHow := map[string]string{}
 	for _, c := range strings.Split(*crashed, ",") {
 		if parts := strings.Split(c, ":"); len(parts) == 3 {
@@ -357,6 +370,9 @@ func driveSpec(args []string) error {
 	bases := loadBases(*nbases == 0 || *nbases > 5)
 	if *nbases > 0 && *nbases < len(bases) {
 		bases = bases[:*nbases]
+	}
+	if *nbases < 0 { // only the documents given with -docs (witness runs)
+		bases = nil
 	}
 	type docv struct {
 		text []byte
@@ -403,6 +419,9 @@ func driveSpec(args []string) error {
 	}
 	// hand-written rejected documents: always part of the universe, in every tier
 	for bi, b := range gen.BadDocs {
+		if *nbases < 0 {
+			break
+		}
 		docs = append(docs, docv{[]byte(b), -2 - bi, "(rejected document)"})
 	}
 	for _, l := range readLines(*extra) {
